@@ -84,7 +84,7 @@ func shortArgs(args []any) string {
 func TestC11Stateful(t *testing.T) {
 	theT = t
 	col := ev.New("C11", "stateful",
-		"rapid: ownership histories (register at levels 2 and 3, transfer, setAdmin, renew; all by authorised signers) over 6 users; after every step, for every registered name and every role {owner, admin, former owner, former admin, parent owner, parent admin, stranger, committee, nobody} the full matrix of mutating methods {addRecord (name and an unregistered sub-name), setRecord, deleteRecords (of a type with records, of a type without any, of an unregistered sub-name), updateSOA, renew, transfer, setAdmin, register of a sub-name} is evaluated by test invocation against the authorisation model: forbidden => FAULT (or false without any storage change for transfer), permitted => HALT; registerTLD/setPrice/update need the committee majority n/2+1 (committees of 1, 3 and 4 keys; a single member, n/2 of n and the 2n/3+1 account are refused); level-2 register needs only the new owner's witness - also for the take-over of an expired name (stranger, former owner, another user, committee alone refused); setAdmin needs owner AND new admin; one forbidden attempt per step is also committed and must leave the NNS storage unchanged; non-trivial = the matrix was evaluated in a state with a former owner or former admin and a level-3 name whose parent has a different owner",
+		"rapid: ownership histories (register at levels 2 and 3, transfer, setAdmin, renew; all by authorised signers) over 6 users; after every step, for every registered name and every role {owner, admin, former owner, former admin, parent owner, parent admin, stranger, committee, nobody} the full matrix of mutating methods {addRecord (name and an unregistered sub-name), setRecord, deleteRecords (of a type with records, of a type without any, of an unregistered sub-name), updateSOA, renew, transfer, setAdmin, register of a sub-name} is evaluated by test invocation against the authorisation model: forbidden => FAULT (or false without any storage change for transfer), permitted => HALT; registerTLD/setPrice/update need the committee majority n/2+1 (committees of 1, 3 and 4 keys; a single member, n/2 of n and the 2n/3+1 account are refused); level-2 register needs only the new owner's witness - also for the take-over of an expired name (stranger, former owner, another user, committee alone refused); setAdmin needs owner AND new admin (also when the proposed admin is a deployed contract or the NNS contract itself); one forbidden attempt per step is also committed and must leave the NNS storage unchanged; non-trivial = the matrix was evaluated in a state with a former owner or former admin and a level-3 name whose parent has a different owner",
 		"all names but one (lapsed.com, expired from the start) are unexpired (expiry is C10)", "update's positive case is decided in C16")
 	runRapid(t, col, func(rt *rapid.T, h *ev.History) {
 		n := rapid.SampledFrom([]int{1, 1, 3, 4}).Draw(rt, "n")
@@ -319,6 +319,14 @@ func TestC11Stateful(t *testing.T) {
 					if o := r.c.Call([]neotest.Signer{byHash(cn.owner)}, w.nns, "setAdmin", nmName, stranger.ScriptHash()); o.Halt && string(cn.owner) != string(stranger.ScriptHash().BytesBE()) {
 						fail("C11: setAdmin(%s) without the new admin's witness succeeded", nmName)
 					}
+					// ... also when the proposed admin is a contract account (which signs nothing: it witnesses only what it
+					// calls itself): a deployed third-party contract, and the NNS contract's own address
+					for _, ch := range []util.Uint160{w.actor, w.nns} {
+						if o := r.c.Call([]neotest.Signer{byHash(cn.owner)}, w.nns, "setAdmin", nmName, ch); o.Halt {
+							fail("C11: setAdmin(%s, contract %s) by the owner alone succeeded: the proposed admin gave no witness", nmName, w.names[ch])
+						}
+					}
+					h.Mark("setAdmin-to-a-contract-without-its-witness")
 				}
 			}
 			// ---- commit one forbidden attempt: storage must stay as it is
